@@ -859,3 +859,35 @@ def iter_fold(fns, src, nmax, which='fold', name=None):
         ex.require(s2, z3.Implies(z3.Not(inr), z3.Or(s2.status[A] == EXTERN, ULE(N, J))), 'an element outside the remaining range was touched', 'end')
         ex.require(s2, ex.stat(s2, ex.V) != HELD, 'an accumulator value was lost (neither passed on, dropped nor returned)', 'end')
     return finish(res, ex, t0, paths, unw)
+
+
+@guarded
+def transmute_guard(fns, src, nmax, ctfe=False, name=None):
+    """const_transmute::<A, B>: returns the argument's bits iff size_of::<A>() == size_of::<B>(); otherwise panics and the argument is dropped
+    exactly once. (The building block of from_array / into_array / flatten / unflatten / assume_init / arr!.)"""
+    N, J = syms('N', 'J')
+    res = Result(name or 'const_transmute', ['C18', 'C11', 'C02'], 'all sizes of A and B (symbolic)%s; loop-free' % (' (MIR FOR CTFE body)' if ctfe else ''))
+    ex = Exec(fns, src, J, N, nmax=nmax, ctfe=ctfe)
+    A = Arr('Arg', N)
+    st = new_state()
+    st.status[A] = LIVE
+    fn = ex.pick(ex.index[(None, None, 'const_transmute')])
+    fn.ltypes['_1'] = 'GenericArray<T, N>'      # the scenario's A: an array that owns N elements
+    t0, paths, unw = time.time(), 0, 0
+    seen = set()
+    for (s2, kind, val) in ex.run_fn(st, fn, [A]):
+        paths += 1
+        unw += kind == 'unwind'
+        sa, sb = ex.consts.get('size_of_A'), ex.consts.get('size_of_B')
+        if kind == 'ret':
+            seen.add('ret')
+            ex.require(s2, sa == sb, 'transmutes between types of different size', 'end')
+            ex.require(s2, z3.BoolVal(val is A), 'result is not the argument\'s bits', 'end')
+            ex.require(s2, z3.Implies(ULT(J, N), s2.status[A] == LIVE), 'argument dropped although its bits were handed on (double drop later)', 'end')
+        else:
+            seen.add('panic')
+            ex.require(s2, sa != sb, 'panics although the sizes are equal', 'panic path')
+            ex.require(s2, z3.Implies(ULT(J, N), s2.status[A] == DROPPED), 'argument not dropped exactly once on the size-mismatch panic', 'panic path')
+    if seen != {'ret', 'panic'}:
+        res.verdict, res.reason = 'inconclusive', 'vacuity: paths seen %s' % sorted(seen)
+    return finish(res, ex, t0, paths, unw)
